@@ -138,7 +138,7 @@ where
             if self.discovered.visit(nx) {
                 // First time visiting `nx`: Push neighbors, don't pop `nx`
                 /*+*/let ghost disc1 = self.discovered.vset();/*-*/
-                /*R:D11 for succ in graph.neighbors(nx) */ let mut __it = graph.neighbors(nx); let ghost all = __it.remaining(); let ghost mut done: int = 0; proof { graph.succ_law(nx); } loop
+                /*R:D11 for succ in */ let mut __it = /*-*/ graph.neighbors(nx) /*R:D11 */; let ghost all = __it.remaining(); let ghost mut done: int = 0; proof { graph.succ_law(nx); } loop
                     invariant
                         __it.obeys_prophetic_iter_laws(), __it.decrease() is Some,
                         0 <= done <= all.len(), __it.remaining() == all.skip(done),
